@@ -181,6 +181,9 @@ def run(ctx):
         if model != [(n_, ids) for n_, ids in res]:
             ctx.drift("shuffle", "model %r real %r" % (model, res), case)
     seed_handover(ctx)
+    # end to end: one seed, every mode (listing with and without -j, sequential, -j N)
+    from harness import corr_c03
+    corr_c03.shuffle_modes(ctx)
 
 
 def seed_handover(ctx):
